@@ -458,6 +458,22 @@ class _DetDatetime(_dt.datetime):
         _DetDatetime._tick += 1
         return _dt.datetime(2022, 1, 1) + _dt.timedelta(seconds=_DetDatetime._tick)
 
+    # local wall-clock time is NOT UTC in this model, and its offset changes between calls (another machine, a DST switch):
+    # code that records local time where UTC is promised becomes visible
+    _offsets = (-5, 3, -9, 1)
+
+    @classmethod
+    def now(cls, tz=None):
+        _DetDatetime._tick += 1
+        utc = _dt.datetime(2022, 1, 1) + _dt.timedelta(seconds=_DetDatetime._tick)
+        if tz is not None:
+            return utc.replace(tzinfo=_dt.timezone.utc).astimezone(tz)
+        return utc + _dt.timedelta(hours=cls._offsets[_DetDatetime._tick % 4])
+
+    @classmethod
+    def true_utc(cls, tick):
+        return _dt.datetime(2022, 1, 1) + _dt.timedelta(seconds=tick)
+
 
 _DET = _DetOS()
 
